@@ -1,4 +1,6 @@
 import Frp.Model.HttpAuth
+import Frp.Model.WebAuth
+import Frp.Lemmas.Base64
 /-
   C07 — Password-protected endpoints serve only requests carrying the exact credentials.
 
@@ -401,6 +403,433 @@ theorem model_plHoldsOn (cfg : Creds) (qs : List PlReq) :
   rw [List.zip_map_right] at hp
   obtain ⟨p', hp', rfl⟩ := List.mem_map.mp hp
   exact pluginHandle_sound cfg qs p' hp' hr
+
+
+/-! ### web endpoints (static_file plugin, frps dashboard, frpc admin API): from the header bytes to the handler -/
+
+section Web
+open WebAuth
+
+/-- the `Authorization` value carries exactly the configured credentials: the scheme "Basic" in any
+    letter case, one space, and a base64 text that DECODES to `user ":" password` -/
+def Carries (cfg : Creds) (hdr : Option Str) : Prop :=
+  match hdr with
+  | none => False
+  | some a => 6 ≤ a.length ∧ equalFold (a.take 6) basicPrefix = true ∧
+      Base64.decode (a.drop 6) = some (cfg.user ++ colon :: cfg.pass)
+
+instance (cfg : Creds) (hdr : Option Str) : Decidable (Carries cfg hdr) := by
+  unfold Carries; split <;> infer_instance
+
+/-- the endpoint is not protected, or the request carries exactly its credentials -/
+def CredsExact (cfg : Creds) (hdr : Option Str) : Prop :=
+  (cfg.user = [] ∧ cfg.pass = []) ∨ Carries cfg hdr
+
+instance (cfg : Creds) (hdr : Option Str) : Decidable (CredsExact cfg hdr) := by
+  unfold CredsExact; infer_instance
+
+theorem cutColon_some {c u p : Str} (h : cutColon c = some (u, p)) : c = u ++ colon :: p ∧ colon ∉ u := by
+  induction c generalizing u p with
+  | nil => simp [cutColon] at h
+  | cons x r ih =>
+    unfold cutColon at h
+    split at h
+    · rename_i hx
+      simp only [Option.some.injEq, Prod.mk.injEq] at h
+      obtain ⟨rfl, rfl⟩ := h
+      exact ⟨by simp [hx], by simp⟩
+    · rename_i hx
+      cases hr : cutColon r with
+      | none => rw [hr] at h; simp at h
+      | some y =>
+        obtain ⟨u', p'⟩ := y
+        rw [hr] at h
+        simp only [Option.map_some, Option.some.injEq, Prod.mk.injEq] at h
+        obtain ⟨rfl, rfl⟩ := h
+        obtain ⟨h1, h2⟩ := ih hr
+        refine ⟨by rw [h1]; rfl, ?_⟩
+        intro hm
+        rcases List.mem_cons.mp hm with e | e
+        · exact hx e.symm
+        · exact h2 e
+
+theorem cutColon_append {u p : Str} (hu : colon ∉ u) : cutColon (u ++ colon :: p) = some (u, p) := by
+  induction u with
+  | nil => simp [cutColon]
+  | cons x r ih =>
+    have hx : x ≠ colon := fun e => hu (by simp [e])
+    have hr : colon ∉ r := fun e => hu (by simp [e])
+    simp only [List.cons_append, cutColon, hx, if_false, ih hr, Option.map_some]
+
+/-- what `Request.BasicAuth` returns is what the header's base64 text decodes to -/
+theorem basicAuth_some {hdr : Option Str} {u p : Str} (h : basicAuth hdr = some (u, p)) :
+    Carries ⟨u, p⟩ hdr ∧ colon ∉ u := by
+  unfold basicAuth at h
+  cases hdr with
+  | none => simp at h
+  | some a =>
+    simp only at h
+    split at h
+    · cases h
+    · unfold parseBasicAuth at h
+      split at h
+      · cases h
+      · rename_i hc
+        simp only [Bool.or_eq_true, decide_eq_true_eq, Bool.not_eq_true', not_or, Nat.not_lt,
+          Bool.not_eq_false] at hc
+        split at h
+        · cases h
+        · rename_i c hd
+          obtain ⟨h1, h2⟩ := cutColon_some h
+          exact ⟨⟨hc.1, hc.2, by rw [hd, h1]⟩, h2⟩
+
+/-- **middleware, from the header bytes**: `next` runs only if the endpoint is unprotected or the
+    header's payload decodes to exactly `user:password` — a payload that merely resembles the expected
+    base64 text (letter case, a changed sextet) decodes to other bytes and is refused. -/
+theorem middlewareHdr_sound (cfg : Creds) (hdr : Option Str) (h : middlewareHdr cfg hdr = true) :
+    CredsExact cfg hdr := by
+  unfold middlewareHdr at h
+  rcases (middleware_iff cfg _).mp h with hu | hb
+  · exact Or.inl hu
+  · exact Or.inr (basicAuth_some hb).1
+
+/-- conversely a request carrying the exact credentials is let through (a user name containing ':'
+    cannot be presented at all: `strings.Cut` splits at the first colon) -/
+theorem middlewareHdr_complete (cfg : Creds) (hdr : Option Str) (hc : colon ∉ cfg.user)
+    (h : Carries cfg hdr) : middlewareHdr cfg hdr = true := by
+  unfold middlewareHdr
+  apply (middleware_iff cfg _).mpr
+  right
+  unfold Carries at h
+  cases hdr with
+  | none => exact absurd h (by simp)
+  | some a =>
+    simp only at h
+    obtain ⟨hl, hf, hd⟩ := h
+    have hne : a ≠ [] := by intro e; rw [e] at hl; simp at hl
+    have hl' : ¬ a.length < 6 := by omega
+    simp only [basicAuth, hne, if_false, parseBasicAuth, hl', hf, decide_false, Bool.not_true,
+      Bool.or_self, Bool.false_eq_true, hd, cutColon_append hc]
+
+/-- the header a well-behaved client sends — "Basic " + base64(user ":" password) — is accepted -/
+theorem middlewareHdr_encoded (cfg : Creds) (hb : Base64.bytes (cfg.user ++ colon :: cfg.pass))
+    (hc : colon ∉ cfg.user) :
+    middlewareHdr cfg (some (basicPrefix ++ Base64.encode (cfg.user ++ colon :: cfg.pass))) = true := by
+  apply middlewareHdr_complete cfg _ hc
+  unfold Carries
+  simp only
+  have h6 : basicPrefix.length = 6 := rfl
+  refine ⟨by simp [h6], ?_, ?_⟩
+  · rw [← h6, List.take_left]; decide
+  · rw [← h6, List.drop_left]; exact Base64.decode_encode _ hb
+
+/-- two headers that are both accepted by a protected endpoint decode to the same bytes -/
+theorem middlewareHdr_same_payload (cfg : Creds) (a b : Str) (hp : ¬ (cfg.user = [] ∧ cfg.pass = []))
+    (ha : middlewareHdr cfg (some a) = true) (hb : middlewareHdr cfg (some b) = true) :
+    Base64.decode (a.drop 6) = Base64.decode (b.drop 6) := by
+  rcases middlewareHdr_sound cfg _ ha with h | h
+  · exact absurd h hp
+  · rcases middlewareHdr_sound cfg _ hb with h' | h'
+    · exact absurd h' hp
+    · unfold Carries at h h'
+      simp only at h h'
+      rw [h.2.2, h'.2.2]
+
+theorem routesMatch_mem {rs : List WebAuth.Route} {m p : Str} {e e' : Bool} {h : Nat}
+    (hm : routesMatch rs m p e = (some h, e')) : h ∈ rs.map (·.h) := by
+  induction rs generalizing e with
+  | nil => simp [routesMatch] at hm
+  | cons r rs ih =>
+    unfold routesMatch at hm
+    split at hm
+    · rename_i h0 e0 hr
+      simp only [Prod.mk.injEq, Option.some.injEq] at hm
+      obtain ⟨rfl, _⟩ := hm
+      unfold routeMatch at hr
+      split at hr
+      · cases hr
+      · split at hr
+        · simp only [Prod.mk.injEq, Option.some.injEq] at hr
+          simp [hr.1]
+        · cases hr
+    · rename_i e0 hr
+      simp only [List.map_cons, List.mem_cons]
+      exact Or.inr (ih hm)
+
+/-- a handler found by the router is wrapped by a sub-router's auth middleware or is one of the handlers
+    registered outside every auth middleware -/
+theorem nodesMatch_guarded {ns : List Node} {m p : Str} {e e' : Bool} {h : Nat} {g : Bool}
+    (hm : nodesMatch ns m p e = (some (h, g), e')) : g = true ∨ h ∈ openOfNodes ns := by
+  induction ns generalizing e with
+  | nil => simp [nodesMatch] at hm
+  | cons n ns ih =>
+    cases n with
+    | route r =>
+      unfold nodesMatch at hm
+      split at hm
+      · rename_i h0 e0 hr
+        simp only [Prod.mk.injEq, Option.some.injEq] at hm
+        obtain ⟨⟨rfl, rfl⟩, _⟩ := hm
+        right
+        unfold routeMatch at hr
+        split at hr
+        · cases hr
+        · split at hr
+          · simp only [Prod.mk.injEq, Option.some.injEq] at hr
+            simp [openOfNodes, hr.1]
+          · cases hr
+      · rename_i e0 hr
+        rcases ih hm with hg | ho
+        · exact Or.inl hg
+        · exact Or.inr (by simp [openOfNodes, ho])
+    | sub mw rs =>
+      unfold nodesMatch at hm
+      split at hm
+      · rename_i h0 e0 hr
+        simp only [Prod.mk.injEq, Option.some.injEq] at hm
+        obtain ⟨⟨rfl, rfl⟩, _⟩ := hm
+        cases mw with
+        | true => exact Or.inl rfl
+        | false =>
+          right
+          have := routesMatch_mem hr
+          simp only [openOfNodes, Bool.false_eq_true, if_false, List.mem_append]
+          exact Or.inl this
+      · rename_i e0 hr
+        rcases ih hm with hg | ho
+        · exact Or.inl hg
+        · exact Or.inr (by simp only [openOfNodes, List.mem_append]; exact Or.inr ho)
+
+/-- **router + middleware + handlers**: for every router of the modelled shape, every method (any
+    token, any casing), every path and every Authorization value, the handler of a route runs only if it is
+    one of the handlers registered outside the auth middleware or the request carries exactly the
+    configured credentials.  Everything the router answers by itself (clean-path redirect, 404, 405) runs
+    no handler. -/
+theorem webServe_sound (R : Router) (cfg : Creds) (q : WebAuth.Req) (h : Nat)
+    (hs : WebAuth.serve R cfg q = .handler h) (hg : h ∉ openHandlers R) : CredsExact cfg q.hdr := by
+  unfold WebAuth.serve at hs
+  split at hs
+  · cases hs
+  · split at hs
+    · rename_i h0 g e hm
+      split at hs
+      · cases hs
+      · rename_i hc
+        simp only [Out.handler.injEq] at hs
+        subst hs
+        have hmw : (g || R.mw) = true → middlewareHdr cfg q.hdr = true := by
+          intro hgm
+          cases hmid : middlewareHdr cfg q.hdr with
+          | true => rfl
+          | false => rw [hgm, hmid] at hc; simp at hc
+        apply middlewareHdr_sound
+        apply hmw
+        rcases nodesMatch_guarded hm with hgd | ho
+        · simp [hgd]
+        · cases hR : R.mw with
+          | true => simp
+          | false =>
+            exfalso
+            apply hg
+            simp [openHandlers, hR, ho]
+    · cases hs
+    · cases hs
+
+/-- a request without the exact credentials gets the 401 challenge or one of the router's own answers
+    (or reaches a handler registered outside the middleware); no other handler runs -/
+theorem webServe_refuses (R : Router) (cfg : Creds) (q : WebAuth.Req) (hn : ¬ CredsExact cfg q.hdr) :
+    WebAuth.serve R cfg q = .unauthorized ∨ WebAuth.serve R cfg q = .redirect ∨
+    WebAuth.serve R cfg q = .notFound ∨ WebAuth.serve R cfg q = .notAllowed ∨
+    ∃ h, WebAuth.serve R cfg q = .handler h ∧ h ∈ openHandlers R := by
+  cases hs : WebAuth.serve R cfg q with
+  | unauthorized => exact Or.inl rfl
+  | redirect => exact Or.inr (Or.inl rfl)
+  | notFound => exact Or.inr (Or.inr (Or.inl rfl))
+  | notAllowed => exact Or.inr (Or.inr (Or.inr (Or.inl rfl)))
+  | handler h =>
+    refine Or.inr (Or.inr (Or.inr (Or.inr ⟨h, rfl, ?_⟩)))
+    cases hd : decide (h ∈ openHandlers R) with
+    | true => exact of_decide_eq_true hd
+    | false => exact absurd (webServe_sound R cfg q h hs (of_decide_eq_false hd)) hn
+
+/-- **static_file plugin**: whatever the strip prefix, the method, the path and the Authorization value,
+    the file handler (gzip → StripPrefix → FileServer) runs only for requests carrying exactly
+    httpUser / httpPassword -/
+theorem staticFile_sound (strip : Str) (cfg : Creds) (q : WebAuth.Req) (h : Nat)
+    (hs : WebAuth.serve (sfRouter strip) cfg q = .handler h) : CredsExact cfg q.hdr :=
+  webServe_sound _ cfg q h hs (by simp [openHandlers, sfRouter])
+
+/-- the same for the request as written on the wire: any number of Authorization lines, any blanks around
+    their values (`Header.Get`: first line, trimmed) -/
+theorem staticFile_wire_sound (strip : Str) (cfg : Creds) (m p : Str) (lines : List Str) (h : Nat)
+    (hs : WebAuth.serve (sfRouter strip) cfg ⟨m, p, headerGet lines⟩ = .handler h) :
+    CredsExact cfg (headerGet lines) :=
+  staticFile_sound strip cfg ⟨m, p, headerGet lines⟩ h hs
+
+/-- only GET reaches the file handler; every other method token (HEAD, get, POST, …) is answered 405 by
+    the router itself on a clean path under the prefix -/
+theorem staticFile_method (strip : Str) (cfg : Creds) (q : WebAuth.Req) (h : Nat)
+    (hs : WebAuth.serve (sfRouter strip) cfg q = .handler h) : q.method = mGET := by
+  unfold WebAuth.serve at hs
+  split at hs
+  · cases hs
+  · cases hm : matchSegs [Seg.lit (sfPrefix strip)] q.path true with
+    | false => simp [sfRouter, nodesMatch, routeMatch, hm] at hs
+    | true =>
+      by_cases hg : q.method = mGET
+      · exact hg
+      · simp [sfRouter, nodesMatch, routeMatch, hm, hg] at hs
+
+/-- **frps dashboard**: everything except `/healthz` (handler 0, registered on the outer router on
+    purpose) is behind the middleware, for both settings of enablePrometheus -/
+theorem dashboard_sound (prom : Bool) (cfg : Creds) (q : WebAuth.Req) (h : Nat)
+    (hs : WebAuth.serve (dashRouter prom) cfg q = .handler h) (h0 : h ≠ 0) : CredsExact cfg q.hdr := by
+  apply webServe_sound _ cfg q h hs
+  cases prom <;> simp [openHandlers, dashRouter, openOfNodes, h0]
+
+/-- **frpc admin API** -/
+theorem admin_sound (cfg : Creds) (q : WebAuth.Req) (h : Nat)
+    (hs : WebAuth.serve adminRouter cfg q = .handler h) (h0 : h ≠ 0) : CredsExact cfg q.hdr := by
+  apply webServe_sound _ cfg q h hs
+  simp [openHandlers, adminRouter, openOfNodes, h0]
+
+def wCfg : Creds := ⟨s "admin", s "s3cret"⟩
+def wq (m p : String) (a : Option String) : WebAuth.Req := ⟨s m, s p, a.map s⟩
+
+/-- non-vacuity: exact header in any scheme casing is served; a letter-case variant of the payload, another
+    password, a missing pad, a doubled space, a bare scheme are challenged; HEAD / lower-case get / POST get
+    405, an unclean path the redirect, both without looking at credentials -/
+example : WebAuth.serve (sfRouter []) wCfg (wq "GET" "/secret.txt" (some "Basic YWRtaW46czNjcmV0")) = .handler 1 := by decide +kernel
+example : WebAuth.serve (sfRouter []) wCfg (wq "GET" "/secret.txt" (some "bASIC YWRtaW46czNjcmV0")) = .handler 1 := by decide +kernel
+example : WebAuth.serve (sfRouter []) wCfg (wq "GET" "/secret.txt" (some "Basic YWRtaW46czNJcmV0")) = .unauthorized := by decide +kernel
+example : WebAuth.serve (sfRouter []) wCfg (wq "GET" "/secret.txt" (some "basic ywrtaw46cznjcmv0")) = .unauthorized := by decide +kernel
+example : WebAuth.serve (sfRouter []) wCfg (wq "GET" "/secret.txt" (some "Basic  YWRtaW46czNjcmV0")) = .unauthorized := by decide +kernel
+example : WebAuth.serve (sfRouter []) wCfg (wq "GET" "/secret.txt" (some "Basic YWRtaW46czNjcmU=")) = .unauthorized := by decide +kernel
+example : WebAuth.serve (sfRouter []) wCfg (wq "GET" "/secret.txt" (some "Basic")) = .unauthorized := by decide +kernel
+example : WebAuth.serve (sfRouter []) wCfg (wq "GET" "/secret.txt" none) = .unauthorized := by decide +kernel
+example : WebAuth.serve (sfRouter []) wCfg (wq "HEAD" "/secret.txt" none) = .notAllowed := by decide +kernel
+example : WebAuth.serve (sfRouter []) wCfg (wq "get" "/secret.txt" (some "Basic YWRtaW46czNjcmV0")) = .notAllowed := by decide +kernel
+example : WebAuth.serve (sfRouter []) wCfg (wq "GET" "/a/../secret.txt" none) = .redirect := by decide +kernel
+example : WebAuth.serve (sfRouter (s "pub")) wCfg (wq "GET" "/secret.txt" (some "Basic YWRtaW46czNjcmV0")) = .notFound := by decide +kernel
+example : WebAuth.serve (dashRouter false) wCfg (wq "GET" "/api/proxy/tcp" (some "Basic YWRtaW46czNjcmV0")) = .handler 12 := by decide +kernel
+example : WebAuth.serve (dashRouter false) wCfg (wq "GET" "/api/proxy/tcp" (some "Basic YwRtaW46czNjcmV0")) = .unauthorized := by decide +kernel
+example : WebAuth.serve (dashRouter false) wCfg (wq "POST" "/api/serverinfo" none) = .notAllowed := by decide +kernel
+example : WebAuth.serve (dashRouter false) wCfg (wq "PUT" "/healthz" none) = .handler 0 := by decide +kernel
+example : WebAuth.serve adminRouter wCfg (wq "PUT" "/api/config" none) = .unauthorized := by decide +kernel
+example : WebAuth.serve adminRouter wCfg (wq "DELETE" "/api/config" none) = .notAllowed := by decide +kernel
+example : headerGet [s " \t Basic YQ== ", s "Basic Yg=="] = some (s "Basic YQ==") := by decide +kernel
+
+/-- executable predicate on an implementation answer: `reached` = a route handler ran for the request
+    (anything but the router's own 301 / 404 / 405 and the middleware's 401) -/
+def webHoldsOn (R : Router) (cfg : Creds) (q : WebAuth.Req) (reached : Bool) : Bool :=
+  !reached || decide (CredsExact cfg q.hdr) ||
+    (match WebAuth.serve R cfg q with
+     | .handler h => (openHandlers R).contains h
+     | _ => false)
+
+theorem webHoldsOn_sound (R : Router) (cfg : Creds) (q : WebAuth.Req) (reached : Bool) :
+    webHoldsOn R cfg q reached = true ↔
+      (reached = true → CredsExact cfg q.hdr ∨ ∃ h, WebAuth.serve R cfg q = .handler h ∧ h ∈ openHandlers R) := by
+  unfold webHoldsOn
+  cases reached with
+  | false => simp
+  | true =>
+    simp only [Bool.not_true, Bool.false_or, Bool.or_eq_true, decide_eq_true_eq, forall_const]
+    constructor
+    · rintro (h | h)
+      · exact Or.inl h
+      · right
+        split at h
+        · rename_i h0 hs
+          exact ⟨h0, hs, by simpa using h⟩
+        · cases h
+    · rintro (h | ⟨h0, hs, hm⟩)
+      · exact Or.inl h
+      · right; rw [hs]; simpa using hm
+
+def Out.isHandler : Out → Bool
+  | .handler _ => true
+  | _ => false
+
+theorem model_webHoldsOn (R : Router) (cfg : Creds) (q : WebAuth.Req) :
+    webHoldsOn R cfg q (Out.isHandler (WebAuth.serve R cfg q)) = true := by
+  rw [webHoldsOn_sound]
+  intro hr
+  cases hs : WebAuth.serve R cfg q with
+  | handler h =>
+    cases hd : decide (h ∈ openHandlers R) with
+    | true => exact Or.inr ⟨h, rfl, of_decide_eq_true hd⟩
+    | false => exact Or.inl (webServe_sound R cfg q h hs (of_decide_eq_false hd))
+  | unauthorized => rw [hs] at hr; cases hr
+  | redirect => rw [hs] at hr; cases hr
+  | notFound => rw [hs] at hr; cases hr
+  | notAllowed => rw [hs] at hr; cases hr
+
+/-- predicate for a bare middleware call -/
+def mwHoldsOn (cfg : Creds) (hdr : Option Str) (next : Bool) : Bool := !next || decide (CredsExact cfg hdr)
+
+theorem mwHoldsOn_sound (cfg : Creds) (hdr : Option Str) (next : Bool) :
+    mwHoldsOn cfg hdr next = true ↔ (next = true → CredsExact cfg hdr) := by
+  cases next <;> simp [mwHoldsOn]
+
+theorem model_mwHoldsOn (cfg : Creds) (hdr : Option Str) : mwHoldsOn cfg hdr (middlewareHdr cfg hdr) = true :=
+  (mwHoldsOn_sound cfg hdr _).mpr (middlewareHdr_sound cfg hdr)
+
+/-- **socks5 plugin**: with a user name or a password configured the target is dialled only after a
+    user/password sub-negotiation carrying exactly both; offering "no authentication" does not help -/
+theorem socks5_sound (cfg : Creds) (q : S5Req) (h : socks5 cfg q = .connected) :
+    (cfg.user = [] ∧ cfg.pass = []) ∨ (q.user = cfg.user ∧ q.pass = cfg.pass ∧ q.methods.contains 2 = true) := by
+  unfold socks5 at h
+  split at h
+  · cases h
+  · simp only at h
+    by_cases hp : s5Protected cfg = true
+    · simp only [hp, if_true] at h
+      split at h
+      · cases h
+      · rename_i hm
+        simp only [Nat.reduceEqDiff, if_false] at h
+        split at h
+        · cases h
+        · split at h
+          · rename_i hc
+            exact Or.inr ⟨hc.1, hc.2, by simpa using hm⟩
+          · cases h
+    · left
+      simp only [s5Protected, Bool.or_eq_true, decide_eq_true_eq, not_or, Decidable.not_not] at hp
+      exact hp
+
+/-- everything else is refused before any request is read -/
+theorem socks5_refuses (cfg : Creds) (q : S5Req) (hp : ¬ (cfg.user = [] ∧ cfg.pass = []))
+    (hn : ¬ (q.user = cfg.user ∧ q.pass = cfg.pass)) : socks5 cfg q ≠ .connected := by
+  intro h
+  rcases socks5_sound cfg q h with h1 | h2
+  · exact hp h1
+  · exact hn ⟨h2.1, h2.2.1⟩
+
+example : socks5 wCfg ⟨5, [0, 2], 1, s "admin", s "s3cret"⟩ = .connected := by decide +kernel
+example : socks5 wCfg ⟨5, [0], 1, s "admin", s "s3cret"⟩ = .noAcceptable := by decide +kernel
+example : socks5 wCfg ⟨5, [2], 1, s "admin", s "S3cret"⟩ = .authFailed := by decide +kernel
+example : socks5 ⟨[], s "p"⟩ ⟨5, [0, 2], 1, [], []⟩ = .authFailed := by decide +kernel
+example : socks5 ⟨[], []⟩ ⟨5, [0], 0, [], []⟩ = .connected := by decide +kernel
+
+def s5HoldsOn (cfg : Creds) (q : S5Req) (reached : Bool) : Bool :=
+  !reached || decide ((cfg.user = [] ∧ cfg.pass = []) ∨ (q.user = cfg.user ∧ q.pass = cfg.pass))
+
+theorem s5HoldsOn_sound (cfg : Creds) (q : S5Req) (reached : Bool) :
+    s5HoldsOn cfg q reached = true ↔
+      (reached = true → (cfg.user = [] ∧ cfg.pass = []) ∨ (q.user = cfg.user ∧ q.pass = cfg.pass)) := by
+  cases reached <;> simp [s5HoldsOn]
+
+theorem model_s5HoldsOn (cfg : Creds) (q : S5Req) :
+    s5HoldsOn cfg q (decide (socks5 cfg q = .connected)) = true := by
+  rw [s5HoldsOn_sound]
+  intro h
+  rcases socks5_sound cfg q (of_decide_eq_true h) with h1 | h2
+  · exact Or.inl h1
+  · exact Or.inr ⟨h2.1, h2.2.1⟩
+
+end Web
 
 /-! non-vacuity: a protected route is reached with the right credentials -/
 example : serve wTable { wReq with auth := some (s "alice", s "secret") } = .forward 1 := by decide +kernel
